@@ -3912,13 +3912,15 @@ class Select(Construct):
 
     def _build(self, obj, stream, context, path):
         for sc in self.subcons:
+            stream2 = io.BytesIO()
             try:
-                data = sc.build(obj, **context)
+                sc._build(obj, stream2, context, path)
             except ExplicitError:
                 raise
             except Exception:
                 pass
             else:
+                data = stream2.getvalue()
                 stream_write(stream, data, len(data), path)
                 return obj
         raise SelectError("no subconstruct matched: %s" % (obj,), path=path)
